@@ -211,9 +211,22 @@ func genWellFormed(r *rand.Rand, idx int, seq int) frame {
 		return frame{kind: "array-echo-after-empty-frames", wire: w, cuts: fragment(r, len(w)), args: [][]byte{[]byte("ECHO"), a}, observe: "echo"}
 	case 7, 8: // inline ECHO, ASCII
 		tok := inlineToken(r, false)
+		kind := "inline-ascii"
+		if r.Intn(4) == 0 {
+			// a long line: around the 4 KiB and 64 KiB buffer sizes of typical line readers, and beyond
+			n := []int{4070 + r.Intn(60), 8192 + r.Intn(100), 65500 + r.Intn(100), 100000 + r.Intn(50000)}[r.Intn(4)]
+			long := make([]byte, n)
+			for i := range long {
+				long[i] = inlineASCII[r.Intn(len(inlineASCII))]
+			}
+			if long[0] == '*' {
+				long[0] = 'x'
+			}
+			tok, kind = long, "inline-ascii-long-line"
+		}
 		seps := []string{" ", "  ", "\t", " \t "}
 		w := []byte(strings.Repeat(" ", r.Intn(2)) + "ECHO" + seps[r.Intn(len(seps))] + string(tok) + strings.Repeat(" ", r.Intn(3)) + "\r\n")
-		return frame{kind: "inline-ascii", wire: w, cuts: fragment(r, len(w)), args: [][]byte{[]byte("ECHO"), tok}, observe: "echo"}
+		return frame{kind: kind, wire: w, cuts: fragment(r, len(w)), args: [][]byte{[]byte("ECHO"), tok}, observe: "echo"}
 	default: // inline ECHO whose argument contains multi-byte UTF-8 (no ASCII white space)
 		tok := inlineToken(r, true)
 		w := []byte("ECHO " + string(tok) + "\r\n")
@@ -600,7 +613,7 @@ func init() {
 		Level: "exploration",
 		Rule: "case = one fresh nokv-redis process (embedded backend, --metrics-addr, RLIMIT_AS = start size + 3 GiB) receiving 25 seeded frames, each on its own TCP connection, 60% hostile " +
 			"(array/bulk length huge 2^20..2^63-1, > int64, negative, non-numeric; truncated frames; missing/half CRLF; nested/typed elements; 64 KiB-1 MiB lines with and without terminator; random bytes; thousands of empty frames) and 40% well-formed " +
-			"(ECHO / MSET+MGET arrays with binary arguments incl. empty, CRLF-laden, ~4 KiB, up to 1 MiB, fragmented over several writes; inline commands with ASCII and multi-byte UTF-8 tokens); " +
+			"(ECHO / MSET+MGET arrays with binary arguments incl. empty, CRLF-laden, ~4 KiB, up to 1 MiB, fragmented over several writes; inline commands with ASCII and multi-byte UTF-8 tokens, a quarter of the ASCII ones with a line of 4 KiB / 8 KiB / 64 KiB / 100-150 KiB); " +
 			"after every frame: process alive, fresh connection answers PING, /debug/vars memstats.TotalAlloc delta <= 16 x bytes sent + 1 MiB + 4 x idle noise + 2 x the same window measured without a frame (before, between and after; excess must repeat on a second attempt), well-formed arguments come back byte-identical; " +
 			"distinct = distinct sequences of frame kinds",
 		Assumptions: []string{
